@@ -46,6 +46,9 @@ FIXED = [
 ]
 
 ROOT = [
+    ("C01", "", 'activation mutation on networks with a multi-input (Dict/Tuple) encoder: change_activation switches the live encoder output activation but init_dict keeps output_activation=None, so everything rebuilt from init_dict (clone, restored checkpoint, re-created target) has an Identity encoder output where the source has the new activation'),
+    ("C07", "", 'activation mutation on networks with a multi-input (Dict/Tuple) encoder: change_activation switches the live encoder output activation but init_dict keeps output_activation=None, so everything rebuilt from init_dict (clone, restored checkpoint, re-created target) has an Identity encoder output where the source has the new activation'),
+    ("C02", "", "activation mutation on networks with a multi-input (Dict/Tuple) encoder: change_activation switches the live encoder output activation but init_dict keeps output_activation=None, so the target network re-created from init_dict has an Identity output where the eval network has the new activation (same family as the C05 encoder_activation_output finding)"),
     ("C05", "TS/real/copy-differs-from-source/architecture/encoder_activation_output", "EvolvableNetwork built from a partial encoder_config without 'activation' gets an Identity encoder output activation, but its init_dict rebuilds (clone, target re-creation) with ReLU: networks/base.py output_activation defaulting"),
     ("C06", "rl_hp/lr/optimizer-registered-under-wrong-lr-name", "OptimizerWrapper._infer_lr_name matches learning rates by object identity: when lr_actor and lr_critic are the same float object the critic optimizers are registered under lr_actor"),
     ("C16", "", "squash_output family: TorchDistribution.log_prob re-evaluates with the pre-squash value of the last sample; scale_action cannot take numpy arrays (eval mode); IPPO calls .cpu() on a None entropy; net_config squash_output is forwarded to ValueNetwork"),
